@@ -1,12 +1,13 @@
 use crate::PropDef;
 
+pub mod c01;
 pub mod c07;
 pub mod c09;
 pub mod c10;
 pub mod c11;
 
 pub fn all() -> Vec<&'static PropDef> {
-    vec![&c07::DEF, &c09::DEF, &c10::DEF, &c11::DEF]
+    vec![&c01::DEF, &c07::DEF, &c09::DEF, &c10::DEF, &c11::DEF]
 }
 
 pub fn find(id: &str) -> Option<&'static PropDef> {
